@@ -1,0 +1,121 @@
+//! Verification hooks. Compiled only with `--cfg hbs_lms_verif`; with the cfg off this file is not
+//! part of the crate at all.
+//!
+//! Everything in here is a thin accessor that *calls* the crate's real internals so that an
+//! external model checker can drive pure helper functions (digit encoding, counter arithmetic)
+//! without generating Merkle trees, and can name the secret-bearing types. Nothing here is used by
+//! the library itself.
+
+use tinyvec::ArrayVec;
+
+use crate::{
+    constants::{LmsTreeIdentifier, MAX_ALLOWED_HSS_LEVELS, REF_IMPL_MAX_PRIVATE_KEY_SIZE},
+    hasher::HashChain,
+    hss::definitions::HssPrivateKey,
+    hss::reference_impl_private_key::CompressedUsedLeafsIndexes,
+    util::coef::coef,
+    LmotsAlgorithm,
+};
+
+pub use crate::constants::{
+    MAX_ALLOWED_HSS_LEVELS as VERIF_MAX_ALLOWED_HSS_LEVELS,
+    MAX_HSS_SIGNATURE_LENGTH as VERIF_MAX_HSS_SIGNATURE_LENGTH,
+    MAX_TREE_HEIGHT as VERIF_MAX_TREE_HEIGHT,
+    MIN_WINTERNITZ_PARAMETER as VERIF_MIN_WINTERNITZ_PARAMETER,
+};
+pub use crate::hss::reference_impl_private_key::{
+    ReferenceImplPrivateKey, Seed, SeedAndLmsTreeIdentifier,
+};
+pub use crate::lm_ots::definitions::LmotsPrivateKey;
+pub use crate::lm_ots::keygen::generate_private_key as lmots_generate_private_key;
+pub use crate::lms::definitions::LmsPrivateKey;
+
+/// (n, w, p, ls) of an LM-OTS type code as the library's parameter table has it.
+pub fn lmots_params<H: HashChain>(ots_type: u32) -> Option<(usize, u8, u16, u8)> {
+    let p = LmotsAlgorithm::get_from_type::<H>(ots_type)?;
+    Some((
+        p.get_hash_function_output_size(),
+        p.get_winternitz(),
+        p.get_num_winternitz_chains(),
+        p.get_checksum_left_shift(),
+    ))
+}
+
+/// The chain positions (message digits followed by checksum digits) the library signs / verifies
+/// for `digest` under LM-OTS type `ots_type`: `append_checksum_to` followed by `coef` for every
+/// chain, exactly as `LmotsSignature::calculate_signature` and
+/// `lm_ots::verify::generate_public_key_candidate` do. Returns the number of digits written.
+pub fn lmots_digits<H: HashChain>(ots_type: u32, digest: &[u8], out: &mut [u16]) -> Option<usize> {
+    let p = LmotsAlgorithm::get_from_type::<H>(ots_type)?;
+    if digest.len() != p.get_hash_function_output_size() {
+        return None;
+    }
+    let with_checksum = p.append_checksum_to(digest);
+    let count = p.get_num_winternitz_chains() as usize;
+    if out.len() < count {
+        return None;
+    }
+    for i in 0..p.get_num_winternitz_chains() {
+        out[i as usize] = coef(with_checksum.as_slice(), i, p.get_winternitz()) as u16;
+    }
+    Some(count)
+}
+
+/// Result of the pure key-state arithmetic on a private key blob, without generating any tree.
+pub struct KeyArithmetic {
+    /// levels decoded from the parameter bytes
+    pub levels: usize,
+    /// per-level leaf index selected by the counter (`CompressedUsedLeafsIndexes::to`)
+    pub leaves: [u32; MAX_ALLOWED_HSS_LEVELS],
+    /// `HssPrivateKey::get_lifetime` on a key whose per-level used-leaf indexes are what
+    /// `HssPrivateKey::from` leaves behind (digit, +1 on every non-bottom level)
+    pub lifetime: u64,
+    /// blob after `ReferenceImplPrivateKey::increment`
+    pub successor: ArrayVec<[u8; REF_IMPL_MAX_PRIVATE_KEY_SIZE]>,
+}
+
+/// Runs parse -> `CompressedUsedLeafsIndexes::to` -> `get_lifetime` -> `increment` on `blob`.
+/// `Err(())` when the blob does not parse (wrong length, empty parameter list).
+pub fn key_arithmetic<H: HashChain>(blob: &[u8]) -> Result<KeyArithmetic, ()> {
+    let mut rfc_key = ReferenceImplPrivateKey::<H>::from_binary_representation(blob)?;
+    let parameters = rfc_key.compressed_parameter.to::<H>()?;
+    let leaves = rfc_key.compressed_used_leafs_indexes.to(&parameters);
+
+    let mut hss_private_key: HssPrivateKey<H> = Default::default();
+    let levels = parameters.len();
+    for (i, parameter) in parameters.iter().enumerate() {
+        let used = if i + 1 < levels {
+            leaves[i] + 1
+        } else {
+            leaves[i]
+        };
+        hss_private_key.private_key.push(LmsPrivateKey::new(
+            Seed::default(),
+            LmsTreeIdentifier::default(),
+            used,
+            *parameter.get_lmots_parameter(),
+            *parameter.get_lms_parameter(),
+        ));
+    }
+    let lifetime = hss_private_key.get_lifetime();
+    rfc_key.increment(&hss_private_key);
+
+    Ok(KeyArithmetic {
+        levels,
+        leaves,
+        lifetime,
+        successor: rfc_key.to_binary_representation(),
+    })
+}
+
+/// `CompressedUsedLeafsIndexes::increment` on a bare counter with explicit tree heights.
+/// Returns the successor blob-counter, or `Err(())` when the library reports exhaustion.
+pub fn counter_increment(heights: &[u8], counter: u64) -> Result<u64, ()> {
+    let mut tree_heights: ArrayVec<[u8; MAX_ALLOWED_HSS_LEVELS]> = ArrayVec::new();
+    for h in heights {
+        tree_heights.try_push(*h).map_or(Ok(()), |_| Err(()))?;
+    }
+    let mut c = CompressedUsedLeafsIndexes::new(counter);
+    c.increment(&tree_heights)?;
+    Ok(c.verif_count())
+}
